@@ -143,3 +143,25 @@ impl DiameterServer {
         }
     }
 }
+
+#[cfg(feature = "verif-hooks")]
+impl DiameterServer {
+    /// Verification hook: the address the listener is bound to (lets a harness bind port 0).
+    pub fn verif_local_addr(&self) -> std::io::Result<SocketAddr> {
+        self.listener.local_addr()
+    }
+
+    /// Verification hook: runs the private per-connection loop on an arbitrary stream.
+    pub async fn verif_serve_stream<F, Fut, S>(
+        stream: S,
+        handler: F,
+        dict: Arc<Dictionary>,
+    ) -> Result<()>
+    where
+        F: Fn(DiameterMessage) -> Fut,
+        Fut: Future<Output = Result<DiameterMessage>>,
+        S: AsyncReadExt + AsyncWriteExt + Unpin,
+    {
+        Self::process_incoming_message(stream, handler, dict).await
+    }
+}
